@@ -145,6 +145,7 @@ fn run_worker(prop: &str, tier: &str, k: usize, n: usize, ctx: &mut Ctx) {
       c09::subset_worker(tier, k, n, ctx);
       c09::multibyte_names_worker(tier, k, n, ctx);
       c09::shifted_identity_worker(tier, k, n, ctx);
+      c09::shared_name_text_worker(tier, k, n, ctx);
     }
     "C05" => hist::c05_worker(tier, k, n, ctx),
     "C12" => codec::c12_worker(tier, k, n, ctx),
